@@ -34,7 +34,10 @@ EXTENDS Naturals, Sequences, FiniteSets, TLC, VerifIO
 
 CONSTANTS Vary,     \* set of dimension names that range freely in this run; the others keep Default
           Fns,      \* fmt functions offered when "fn" varies
-          Shs       \* shadowed names offered when "sh" varies
+          Shs,      \* shadowed names offered when "sh" varies
+          ScopeAware \* FALSE: the rewriter as it is (scope holds var/const names only, consulted for the
+                     \* qualifier only); TRUE: after fixes/C25-shadowed-names.diff (:=, parameters, package
+                     \* funcs are in the scope too, and the builtin's own name is looked up as well)
 
 PrintFns   == {"Print", "Printf", "Println"}
 FprintFns  == {"Fprint", "Fprintf", "Fprintln"}
@@ -114,7 +117,10 @@ Init == /\ d \in Descs
 \* --- what the rewriter knows ------------------------------------------------
 \* gopstyle.go formatCtx.scope: only names of `var` / `const` specs are inserted (formatGenDecl);
 \* `:=`, parameters, func and import names are not.
-RewriterSees(shk) == shk \in {"local", "pkgvar"}
+RewriterSees(shk) == IF ScopeAware THEN shk \in {"local", "define", "param", "pkgvar", "pkgfunc"}
+                     ELSE shk \in {"local", "pkgvar"}
+\* the name the site would be converted to is declared by the program and the rewriter knows it
+BuiltinNameSeen(x) == ScopeAware /\ x.sh # "-" /\ x.sh = Builtin(x.fn) /\ RewriterSees(x.shk)
 \* stmt_expr_or_type.go formatSelectorExpr: `fmt.F` is left alone iff LookupParent("fmt") succeeds
 FmtQualifierHidden == d.sh = "fmt" /\ RewriterSees(d.shk)
 
@@ -123,7 +129,8 @@ Mark(s, r) == [s EXCEPT !.done = @ \cup {r}]
 
 \* format.go fmtToBuiltin via formatSelectorExpr
 RFmt == /\ Rule("fmt")
-        /\ st' = Mark([st EXCEPT !.fmtsite = IF FmtQualifierHidden \/ d.fn \notin TableFns THEN "kept" ELSE "builtin"], "fmt")
+        /\ st' = Mark([st EXCEPT !.fmtsite = IF FmtQualifierHidden \/ d.fn \notin TableFns \/ BuiltinNameSeen(d)
+                                             THEN "kept" ELSE "builtin"], "fmt")
         /\ UNCHANGED <<d, pc>>
 \* format.go commandStyleFirst (formatExprStmt): any call statement whose Fun is an identifier or selector
 RCmd == /\ Rule("cmd")
@@ -163,7 +170,7 @@ Spec == Init /\ [][Next]_vars /\ WF_vars(Next)
 
 \* --- the closed-form decision table ------------------------------------------
 Predicted(x) ==
-  LET kept == (x.sh = "fmt" /\ RewriterSees(x.shk)) \/ x.fn \notin TableFns IN
+  LET kept == (x.sh = "fmt" /\ RewriterSees(x.shk)) \/ x.fn \notin TableFns \/ BuiltinNameSeen(x) IN
   [fmtsite |-> IF kept THEN "kept" ELSE "builtin",
    cmd     |-> IF x.pos = "stmt" THEN "cmd" ELSE "na",
    selsite |-> IF x.sel = "-" THEN "none" ELSE "lower",
@@ -176,7 +183,7 @@ Predicted(x) ==
 \* --- is the rewrite expected to preserve behaviour? ---------------------------
 \* the name the converted site calls is captured by a user declaration visible at the site
 BuiltinCaptured(x) == /\ x.sh = Builtin(x.fn) /\ x.sh # "-"
-                      /\ ~((x.sh = "fmt" /\ RewriterSees(x.shk)) \/ x.fn \notin TableFns)
+                      /\ ~((x.sh = "fmt" /\ RewriterSees(x.shk)) \/ x.fn \notin TableFns \/ BuiltinNameSeen(x))
 \* `fmt` denotes a user value the rewriter does not see: the method call is turned into a builtin
 QualifierMisread(x) == x.sh = "fmt" /\ ~RewriterSees(x.shk)
 \* main's leading `var` becomes a package-level declaration once main is the shadow entry
